@@ -4,7 +4,9 @@
      after, flavour      which pass ran ("setmodel" | "place" | "layout" | "route" | "apply"; greedy/trivial/static, sabre/pam)
      n, edges            the machine (setmodel only)
      placement, im, fm   PassData.placement / initial_mapping / final_mapping
-     swaps               (route) every swap the router applied to its pi, in order (its undo swaps included)
+     swaps               (route) every change the router made to its pi, in order: <<0, a, b>> a swap of the wires a, b
+                         (_apply_swap; its undo swaps included), <<1, x, y>> a block variant exchanging the positions x, y
+                         (_apply_perm of a two-qudit block, PAM), <<2, 0, 0>> a permutation the model has no action for
      cswaps              (route) every SwapGate of the circuit after the pass, in circuit order: what the circuit DOES
      cand                the circuit was observed at this point (it is as wide as the machine, the placement is the identity)
    The run is replayed through MappingAlgebra's own actions with the recorded parameters.  After every pass
@@ -81,10 +83,12 @@ TRouteStart == /\ Snap.after = "route" /\ phase = "ready"
                /\ IF PlacedConnected /\ Len(placement) = w THEN RouteStart(Snap.flavour) /\ UNCHANGED tvars
                   ELSE Force("route", "routing ran on a placement the model holds to be disconnected")
 TRouteSwap == /\ Snap.after = "route" /\ phase = "routing" /\ j <= Len(Snap.swaps)
-              /\ LET a == Snap.swaps[j][1] b == Snap.swaps[j][2] IN
-                 IF a \in 0..w - 1 /\ b \in 0..w - 1 /\ SubEdge(a, b)
+              /\ LET t == Snap.swaps[j][1] a == Snap.swaps[j][2] b == Snap.swaps[j][3] IN
+                 IF t = 0 /\ a \in 0..w - 1 /\ b \in 0..w - 1 /\ SubEdge(a, b)
                  THEN RouteSwap(a, b, FALSE) /\ j' = j + 1 /\ UNCHANGED <<tid, s, drift, resync>>
-                 ELSE Force("route", "swap not on an edge of the placed subgraph")
+                 ELSE IF t = 1 /\ a \in 0..w - 1 /\ b \in 0..w - 1 /\ a # b /\ SubEdge(pi[a + 1], pi[b + 1])
+                 THEN RoutePerm(a, b) /\ j' = j + 1 /\ UNCHANGED <<tid, s, drift, resync>>
+                 ELSE Force("route", "swap or block permutation not on an edge of the placed subgraph")
 TRouteEnd == /\ Snap.after = "route" /\ phase = "routing" /\ j = Len(Snap.swaps) + 1
              /\ IF RouteEndOK /\ SwapsOK(Snap.cswaps)
                 THEN RouteEnd /\ After(IF Matches THEN "route-tokens" ELSE "route", Matches /\ tok' = CircuitTokens)
